@@ -2449,7 +2449,7 @@ class Attribute(object):
     def update_reverse(attr, obj, old_val, new_val, undo_funcs):
         reverse = attr.reverse
         if not reverse.is_collection:
-            if old_val not in (None, NOT_LOADED):
+            if old_val not in (None, NOT_LOADED) and old_val is not obj:  # (a symmetric attribute can refer to the object itself)
                 if attr.cascade_delete: old_val._delete_(undo_funcs)
                 elif reverse.is_required: throw(ConstraintError,
                     'Cannot unlink %r from previous %s object, because %r attribute is required'
